@@ -39,6 +39,7 @@ type Program struct {
 	lemmas      []*SmtLemma
 	opImpls     []opImpl
 	noFamilies  bool // lemma selection variant (set on per-query copies only)
+	focus       map[string]bool // goal-derived applications (per-query copies only)
 	legacyLemmas bool // single-phase first round, loose tuple matching (variant, per-query copies only)
 }
 
